@@ -117,6 +117,7 @@ type checkOpts struct {
 	overlay                map[string][]byte
 	only                   string
 	keepSMT                bool
+	workDir                string
 	quiet                  bool
 }
 
@@ -166,8 +167,22 @@ func runProperty(o checkOpts) ([]*funcResult, *Engine, []string, error) {
 		ctx := e.verifyFunc(fn, fs)
 		results = append(results, &funcResult{fs: fs, fn: fn, ctx: ctx, gen: time.Since(t0)})
 	}
+	for _, lem := range e.lemmas {
+		if !hasProp(lem.Props, o.prop) {
+			continue
+		}
+		if o.only != "" && !strings.Contains(lem.Name, o.only) {
+			continue
+		}
+		t0 := time.Now()
+		ctx := e.verifyLemma(lem)
+		results = append(results, &funcResult{fs: &FuncSpec{Name: "lemma." + lem.Name}, ctx: ctx, gen: time.Since(t0)})
+	}
 	// discharge
 	dir := filepath.Join(o.verif, "work", o.prop)
+	if o.workDir != "" {
+		dir = o.workDir
+	}
 	_ = os.RemoveAll(dir)
 	for _, r := range results {
 		var obs []*Obligation
